@@ -26,7 +26,8 @@ TServer == /\ IsEv("server") /\ Consume
                  THEN db' = [db EXCEPT ![U] = x.new] /\ applied' = applied \cup {[u |-> U, new |-> x.new, sub |-> x.sub]}
                  ELSE x.action = "refused" /\ UNCHANGED <<db, applied>>
            /\ UNCHANGED <<cpw, out, net, usedKeys, results>>
-Attack == {"reflected", "errorform0", "earlier", "wrongkey", "sessionkey", "tampered", "truncated"}
+\* reflected-kvno / reflected-etype: the step Reflect with an unauthenticated outer field of the EncryptedData changed
+Attack == {"reflected", "reflected-kvno", "reflected-etype", "errorform0", "earlier", "wrongkey", "sessionkey", "tampered", "truncated"}
 TClient == /\ IsEv("client") /\ Consume
            /\ LET x == Tr[l]
                   served == [u |-> U, new |-> x.new, sub |-> x.sub] \in applied
